@@ -347,6 +347,18 @@ def w_program(ctx, rng, i):
         if len(rm):
             for j in rng.integers(-len(rm), len(rm), min(3, len(rm))):
                 maxdepth_read = max(maxdepth_read, read(ctx, r, rm, int(j), how=["int", "np"][rng.integers(0, 2)]))
+        if len(rm) >= 2 and rng.random() < 0.3:
+            # an iteration that is abandoned after its first element (next(iter(..)), a loop with a break, any() that finds
+            # what it looks for): only that element was evaluated
+            n0 = len(LOG)
+            first_ = next(iter(r))
+            logged_ = LOG[n0:]
+            ctx.tap("abandoned_iteration", "calls"); ctx.tap("abandoned_iteration", "checked")
+            if first_ != m_value(rm[0]):
+                ctx.fail("iteration_differs_from_list_model", cls="LazyList", mech="first_element_of_an_iteration")
+            if logged_ != m_log(rm[0]):
+                ctx.fail("element_read_evaluated_wrong_things", cls="LazyList", mech="abandoned_iteration:" + ("evaluated_more" if len(logged_) > len(m_log(rm[0])) else "evaluated_other"),
+                         logged=logged_[:8], expected=m_log(rm[0])[:8])
         for bad in (len(rm), -len(rm) - 1, -2 * len(rm) - int(rng.integers(0, 2)), len(rm) + 3):
             if -len(rm) <= bad < len(rm):
                 continue
